@@ -126,8 +126,37 @@ func remove(xs []string, x string) []string {
 	return out
 }
 
-// sourceLabel mirrors dawn's sourceLabel for a root-relative path.
+// Names that are not valid UTF-8 cannot be carried by the JSON of a replay file: in the abstract project a raw byte
+// b ≥ 0x80 that is not part of a valid UTF-8 sequence is written as the private-use rune U+F700+b; realPath maps the
+// abstract spelling to the bytes on disk (valid non-ASCII text is left alone).
+func rawByte(b byte) string { return string(rune(0xF700 + int(b))) }
+
+func realPath(p string) string {
+	raw := false
+	for _, r := range p {
+		if r >= 0xF780 && r <= 0xF7FF {
+			raw = true
+		}
+	}
+	if !raw {
+		return p
+	}
+	var sb strings.Builder
+	for _, r := range p {
+		if r >= 0xF780 && r <= 0xF7FF {
+			sb.WriteByte(byte(r - 0xF700))
+		} else {
+			sb.WriteRune(r)
+		}
+	}
+	return sb.String()
+}
+
+func fsPath(root, rel string) string { return filepath.Join(root, filepath.FromSlash(realPath(rel))) }
+
+// sourceLabel mirrors dawn's sourceLabel for a root-relative path (the label carries the bytes on disk).
 func sourceLabelOf(p string) string {
+	p = realPath(p)
 	d, b := path.Split(p)
 	return "source://" + strings.TrimSuffix(d, "/") + ":" + b
 }
@@ -176,6 +205,20 @@ func (p *Proj) globMatches(t *Tgt) []string {
 		}
 	}
 	sort.Strings(out)
+	return out
+}
+
+// codeReads: the read list as the function's code spells it
+func (p *Proj) codeReads(t *Tgt) []string {
+	if t.Glob == "" {
+		return p.readPaths(t)
+	}
+	out := []string{"<self.sources>"}
+	for _, d := range t.ReadDep {
+		if dt := p.tgt(d); dt != nil {
+			out = append(out, dt.Gens...)
+		}
+	}
 	return out
 }
 
@@ -243,7 +286,7 @@ func quoteList(xs []string, prefix string) string {
 
 func (p *Proj) form(t *Tgt) string {
 	switch {
-	case t.Free >= 0:
+	case t.Free >= 0 && t.Glob == "": // (a glob target's function takes `self`: never the closure form)
 		return "closure"
 	case t.Dflt >= 0:
 		return "default"
@@ -289,7 +332,7 @@ func (p *Proj) descriptor(t *Tgt) string {
 	}
 	return fmt.Sprintf("%s|%s|v%d|c%s|g:%s|h:%s|d%s|f%s|r:%s|w:%s", t.Label(), p.form(t), t.CodeVer, p.lit("const|"+t.Label(), t.Const), g, h,
 		p.lit("dflt|"+t.Label(), t.Dflt), p.lit("free|"+t.Label(), t.Free),
-		strings.Join(p.readPaths(t), ","), strings.Join(t.Gens, ","))
+		strings.Join(p.codeReads(t), ","), strings.Join(t.Gens, ","))
 }
 
 func (p *Proj) renderBuild(pkg string) string {
@@ -350,6 +393,17 @@ func (p *Proj) renderBuild(pkg string) string {
 			kw += ", default=True"
 		}
 		body := fmt.Sprintf("vb.body(%q, %s, %s, %s)", t.Label(), quoteList(p.readPaths(t), ""), quoteList(t.Gens, ""), p.valsExpr(t))
+		if t.Glob != "" {
+			// what a glob matches cannot be spelled in the code (names need not even be valid UTF-8): the body reads the
+			// sources the engine hands it (self.sources, absolute paths), then the outputs of the dependencies it reads
+			var depGens []string
+			for _, d := range t.ReadDep {
+				if dt := p.tgt(d); dt != nil {
+					depGens = append(depGens, dt.Gens...)
+				}
+			}
+			body = fmt.Sprintf("vb.body(%q, self.sources + %s, %s, %s)", t.Label(), quoteList(depGens, ""), quoteList(t.Gens, ""), p.valsExpr(t))
+		}
 		doc := fmt.Sprintf("\"\"\"target %s, doc %d\"\"\"", t.Name, t.Doc)
 		fmt.Fprintf(&sb, "# %s (comment %d)\n", t.Name, p.Noise[pkg])
 		switch p.form(t) {
@@ -359,7 +413,11 @@ func (p *Proj) renderBuild(pkg string) string {
 		case "default":
 			fmt.Fprintf(&sb, "@target(%s)\ndef %s_fn(self, dflt=%s):\n%s%s\n%s%s\n\n", kw, t.Name, p.lit("dflt|"+t.Label(), t.Dflt), ind, doc, ind, body)
 		default:
-			fmt.Fprintf(&sb, "@target(%s)\ndef %s_fn():\n%s%s\n%s%s\n\n", kw, t.Name, ind, doc, ind, body)
+			params := ""
+			if t.Glob != "" {
+				params = "self"
+			}
+			fmt.Fprintf(&sb, "@target(%s)\ndef %s_fn(%s):\n%s%s\n%s%s\n\n", kw, t.Name, params, ind, doc, ind, body)
 		}
 	}
 	return sb.String()
@@ -398,12 +456,12 @@ func (p *Proj) writeAll(root string) error {
 		return err
 	}
 	for _, d := range p.Dirs {
-		if err := os.MkdirAll(filepath.Join(root, filepath.FromSlash(d)), 0o755); err != nil {
+		if err := os.MkdirAll(fsPath(root, d), 0o755); err != nil {
 			return err
 		}
 	}
 	for f, c := range p.Files {
-		if err := writeIfChanged(filepath.Join(root, filepath.FromSlash(f)), c); err != nil {
+		if err := writeIfChanged(fsPath(root, f), c); err != nil {
 			return err
 		}
 	}
@@ -431,7 +489,7 @@ var noopEdit = map[string]bool{"touch": true, "samecontent": true, "comment": tr
 
 // apply performs the edit on the abstract project and on the tree under root ("" = abstract only).
 func (e *Edit) apply(p *Proj, root string) error {
-	abs := func(rel string) string { return filepath.Join(root, filepath.FromSlash(rel)) }
+	abs := func(rel string) string { return fsPath(root, rel) }
 	rebuild := false
 	switch e.Kind {
 	case "content", "create":
@@ -655,13 +713,26 @@ func (n *numbering) env(s string) int {
 }
 
 // entry names are numbered by their rank in the fixed pool, so that numeric order is the byte order of the names
-var namePool = []string{"a.txt", "b.txt", "c.txt", "d.txt", "e.txt", "f.txt", "sub", "z.txt"}
+var namePool = []string{"a.txt", "b.txt", "c.txt", "d.txt", "e.txt", "f.txt", "sub", "z.txt",
+	// unusual names: space, percent signs (also one that looks like an escaped slash), hash, quotes, leading dash, trailing
+	// dot, valid non-ASCII, and names that are NOT valid UTF-8 (0xe9, 0xff, a lone continuation byte)
+	"sp ace.txt", "%.txt", "%2F.txt", "#h.txt", "q\"q.txt", "q'q.txt", "-d.txt", "dot.", "é.txt", "at@x.txt", "semi;x.txt",
+	"caf" + rawByte(0xe9) + ".txt", rawByte(0xff) + ".txt", "c" + rawByte(0x80) + ".txt"}
 
+var nameRanks = func() map[string]int {
+	sorted := append([]string{}, namePool...)
+	sort.Slice(sorted, func(i, j int) bool { return realPath(sorted[i]) < realPath(sorted[j]) })
+	m := map[string]int{}
+	for i, n := range sorted {
+		m[n] = i + 1
+	}
+	return m
+}()
+
+// nameRank: the rank of an entry name in the byte order of the names on disk (the order dirSum sorts by)
 func nameRank(s string) int {
-	for i, n := range namePool {
-		if n == s {
-			return i + 1
-		}
+	if r, ok := nameRanks[s]; ok {
+		return r
 	}
 	return 99
 }
